@@ -91,6 +91,15 @@ def insertSorted {α : Type} (lt : α → α → Bool) (x : α) : List α → Li
 def isort {α : Type} (lt : α → α → Bool) (l : List α) : List α :=
   l.foldr (insertSorted lt) []
 
+/-- stable variant: an element is inserted in front of the first later element that is not smaller,
+    so equal keys keep their original order (Go's insertion sort, used by sort.Slice below 12 elements) -/
+def insertStable {α : Type} (lt : α → α → Bool) (x : α) : List α → List α
+  | [] => [x]
+  | y :: ys => if lt y x then y :: insertStable lt x ys else x :: y :: ys
+
+def isortStable {α : Type} (lt : α → α → Bool) (l : List α) : List α :=
+  l.foldr (insertStable lt) []
+
 def joinWith (sep : String) : List String → String
   | [] => ""
   | [x] => x
